@@ -516,7 +516,10 @@ def parse_host(
         # IPv6 address with a port
         pos = host.rfind(']:')
         if pos != -1:
-            return (host[1:pos], int(host[pos + 2 :]))
+            port = host[pos + 2 :]
+            # NOTE: RFC 3986 allows an empty port ("host:"); it means the
+            #   default one.
+            return (host[1:pos], int(port) if port else default_port)
         else:
             return (host[1:-1], default_port)
 
@@ -529,7 +532,8 @@ def parse_host(
     # only a single colon, so we should have an IPv4 address
     # or a domain name plus a port
     name, _, port = host.partition(':')
-    return (name, int(port))
+    # NOTE: RFC 3986 allows an empty port ("host:"); it means the default one.
+    return (name, int(port) if port else default_port)
 
 
 def unquote_string(quoted: str) -> str:
